@@ -39,10 +39,14 @@ CLAIMED = {
         '(F\'(x) dx)_j; the EXECUTABLE instance run by vm_compute (coefficient lists of length D over a field, series kernels) is proved to '
         'refine the ring instance at {poly K} modulo X^D for every tape, so the identity holds for it at every Taylor order d < D '
         '(C03_exec_adjoint, C03_exec_grad_refines); the setitem pullback as it stood before the repair is refuted by a kernel-checked witness (this refutation, produced by '
-        'the failed proof attempt, exposed a real defect that was then repaired). On every run: the adjoint identity on the implementation for '
+        'the failed proof attempt, exposed a real defect that was then repaired). Array-level rules (every commutative ring, all sizes): the '
+        'reverse rules of dot, outer, inv, solve, trace, transpose, det and logdet as coded are the transposes, for the pairing tr(A^T B), of the '
+        'differentials, and the differentials are justified by first-order expansions with a nilpotent scalar, including Jacobi\'s formula '
+        'det(A + eps V) = det A + eps tr(adj(A) V); the executable rules over series of list matrices are their Cauchy products. On every run: the adjoint identity on the implementation for '
         'generated programs (F\'v from forward propagation alone, evaluation point != recording point, D<=4, P<=3, all orders), every xbar '
-        'coefficient of rational scalar programs with buffers against the Coq model, and documented unsupported operations raising.',
-   note=NOTE_COMMON + 'Pullbacks of array-level operations (dot, outer, inv, solve, det, reshape, transpose, sum, factorizations) are not in the tape theorem: adjoint-identity predicate only.',
+        'coefficient of rational scalar programs with buffers against the Coq model, UTPM.pb_dot / pb_inv / pb_solve called directly against the '
+        'executable rules (exact over Qc), and documented unsupported operations raising.',
+   note=NOTE_COMMON + 'The array-level rules are proved one by one (dot, outer, inv, solve, trace, transpose, det, logdet), not as part of the tape theorem; the pullbacks of the factorizations (qr, cholesky, lu, eigh, svd, eig), reshape, sum and fft are covered by the adjoint-identity predicate only.',
    technique='Coq proof (potential-function invariant over the tape with heaps) + adjoint-identity predicate on the implementation + model correspondence',
    design='4/C03'),
  'C04': dict(
@@ -126,7 +130,10 @@ CLAIMED = {
  'C11': dict(
    text='Theorems (every kernel, every P, all shapes): in the model a polynomial with P directions is a list of P independent blocks; '
         'restricting the operands of any element-wise function, broadcasting binary operation or shape manipulation to direction p and '
-        'operating gives direction p of the full result (so no information flows between directions). On every run the property is '
+        'operating gives direction p of the full result (so no information flows between directions); for WHOLE PROGRAMS the executable '
+        'tracer instance lifted to P direction blocks with their own base points computes in block p -- forward evaluation, replay, tangent sweep '
+        'and the adjoints of the reverse sweep -- exactly what the one-direction instance computes from block p of inputs, constants and seeds '
+        '(C11_program_*_dir, C11_program_*_no_flow). On every run the property is '
         'evaluated directly on the implementation (each registered operation on the full input vs on each single direction, different base '
         'points per direction, constants shaped like the direction axis) and the implementation is tied to the model on the restricted runs.',
    note=NOTE_COMMON + 'Direction independence of the model is by its per-direction structure; that the implementation has this structure is '
@@ -156,7 +163,9 @@ CLAIMED = {
  'C14': dict(
    text='Theorems (every field, every D): store-passing models of the product kernel with its output aliased to either or both operands, and '
         'of the in-place product x *= y, compute the Cauchy product; the repaired x *= x is correct whether or not the operands share '
-        'memory, and the loop as it stood before the fix is refuted by a kernel-checked witness. On every run: byte-wise snapshots of every '
+        'memory, and the loop as it stood before the fix is refuted by a kernel-checked witness; in-place division through a temporary is '
+        'correct for every aliasing pattern of output, numerator and denominator, the direct loop is correct without aliasing and with '
+        'out = numerator and refuted (kernel-checked witness) with out = denominator. On every run: byte-wise snapshots of every '
         'argument around every registered operation, x op x / x op= x / x op= view(x) against independent copies (exact), the kernels '
         'against the Coq store model (exact), and input/seed objects around recording and reverse sweeps.',
    note=NOTE_COMMON + 'Whether a NumPy call mutates a caller buffer is a runtime fact decided by the snapshots, not by a theorem.',
